@@ -1,5 +1,5 @@
 (* C20: stacked flavours compose as byte-stream transformers. *)
-From PV Require Import Base MachineInt DataModel Ser De Cobs CobsRef Crc SerFlavors DeFlavors Sinks Thresholds CrcFacts.
+From PV Require Import Base MachineInt DataModel Ser De Cobs CobsRef Crc SerFlavors DeFlavors Sinks Thresholds CrcFacts Cobs Crc SerFlavors ModDecl GenModifiers ModInterp ModFacts.
 Open Scope N_scope.
 
 (* checksum-then-COBS: the output is the COBS frame of (plain bytes followed by their
@@ -45,8 +45,55 @@ Theorem C20_user_flavour : forall (overrides : bool) (v : value),
   ser_err v = None -> exists calls, to_recorder overrides v = Ok calls /\ flat_map call_bytes calls = enc v.
 Proof. exact recorder_sees_plain. Qed.
 
+(* the COBS modifier of these theorems is the code: try_push and finalize of ser/flavors.rs's
+   Cobs<B> are re-read from the source on every run (the match on the encoder's push result with
+   each arm's writes, which results are propagated with `?`) and interpreted over any inner flavour *)
+Theorem C20_cobs_try_push_is_the_source : forall (St Out : Type) (inner : sflavor St Out) (alg : crc_alg) (nb : nat)
+    (s : St) (e : enc_state) (d : N) (data : byte),
+  cobs_push inner (s, e) data =
+  let* '(m, _) := mrun inner alg nb cobs_try_push [MvByte data] {| ms_inner := s; ms_cobs := e; ms_digest := d |} in
+  Ok (ms_inner m, ms_cobs m).
+Proof. exact @cobs_push_is_source. Qed.
+Theorem C20_cobs_finalize_is_the_source : forall (St Out : Type) (inner : sflavor St Out) (alg : crc_alg) (nb : nat)
+    (s : St) (e : enc_state) (d : N),
+  cobs_finalize inner (s, e) =
+  let* '(_, out) := mrun inner alg nb cobs_finalize_steps [] {| ms_inner := s; ms_cobs := e; ms_digest := d |} in
+  match out with Some o => Ok o | None => Panic end.
+Proof. exact @cobs_finalize_is_source. Qed.
+(* the CRC modifier of these theorems is the code: try_push and finalize of ser/flavors.rs's
+   CrcModifier are re-read from the source on every run and interpreted over any inner flavour;
+   the deserialisation side is matched against a template with holes (which bytes reach the
+   digest, how many checksum bytes are read, the two error kinds, the five widths) *)
+Theorem C20_crc_try_push_is_the_source : forall (St Out : Type) (inner : sflavor St Out) (alg : crc_alg) (nb : nat)
+    (s : St) (e : enc_state) (d : N) (b : byte),
+  crcm_push inner alg (s, d) b =
+  let* '(m, _) := mrun inner alg nb crc_try_push [MvByte b] {| ms_inner := s; ms_cobs := e; ms_digest := d |} in
+  Ok (ms_inner m, ms_digest m).
+Proof. exact @crc_push_is_source. Qed.
+Theorem C20_crc_finalize_is_the_source : forall (St Out : Type) (inner : sflavor St Out) (alg : crc_alg) (nb : nat)
+    (s : St) (e : enc_state) (d : N),
+  crcm_finalize inner alg nb (s, d) =
+  let* '(_, out) := mrun inner alg nb crc_finalize_steps [] {| ms_inner := s; ms_cobs := e; ms_digest := d |} in
+  match out with Some o => Ok o | None => Panic end.
+Proof. exact @crc_finalize_is_source. Qed.
+Theorem C20_crc_de_is_the_source :
+  crc_de_pop_updates_digest_with_the_byte = true /\ crc_de_take_updates_digest_with_the_bytes = true /\
+  crc_de_finalize = (DeserializeBadEncoding, DeserializeBadCrc) /\ crc_de_widths = crc_ser_widths.
+Proof. exact crc_de_is_source. Qed.
+
+Theorem C20_modifiers_define_exactly :
+  cobs_methods = [nm_try_push; nm_finalize] /\ crc_ser_methods = [nm_try_push; nm_finalize] /\
+  crc_de_entry_points_finalize_through_the_modifier = true.
+Proof. exact modifiers_define_exactly. Qed.
+
 Print Assumptions C20_crc_inside_cobs.
 Print Assumptions C20_cobs_any_storage.
 Print Assumptions C20_crc_any_storage.
 Print Assumptions C20_unstack.
 Print Assumptions C20_user_flavour.
+Print Assumptions C20_cobs_try_push_is_the_source.
+Print Assumptions C20_cobs_finalize_is_the_source.
+Print Assumptions C20_crc_try_push_is_the_source.
+Print Assumptions C20_crc_finalize_is_the_source.
+Print Assumptions C20_crc_de_is_the_source.
+Print Assumptions C20_modifiers_define_exactly.
